@@ -19,6 +19,18 @@
     inline bool operator<=(const T& a, const T& b) { return !(a.field < b.field); } \
     inline bool operator>=(const T& a, const T& b) { return !(b.field < a.field); }
 
+
+// Stateful comparator wrapper for the drivers.  A library template that is handed a comparator OBJECT must use that object (or copies of it): a comparator may carry
+// run-time state (a direction flag, a table pointer, a std::function).  VF_Stateful<Base>(1) is "armed" and orders like Base; a default-constructed instance -- what the
+// code under test gets if it drops the object it was given and makes its own -- orders by the REVERSE of Base, so the slip shows up as a wrong result.
+template <class Base>
+struct VF_Stateful {
+    int armed = 0; Base base;
+    VF_Stateful() = default;
+    explicit VF_Stateful(int a) : armed(a) {}
+    template <class T> bool operator()(const T& x, const T& y) const { return armed ? base(x, y) : base(y, x); }
+};
+
 #if defined(VERIF_COVERAGE)
 extern "C" void __gcov_dump(void);
 #endif
